@@ -7,6 +7,25 @@ from ..origins import Origins
 VERDICT_FNS = ("ucg::do_validate", "ucg::do_compile", "ucg::visit_ucg_files")
 
 
+def _nonzero_exit_blocks(fn):
+    """blocks that commit to a non-zero exit status: exit(<const != 0>) calls, and for exit(<selected code>) the blocks that select a
+    non-zero code"""
+    out = {b for b, c in util.exit_calls(fn) if c not in ("0", None)}
+    for eb, t in fn.calls():
+        if callee(t) == "std::process::exit" and "int" not in t["args"][0]:
+            cl = op_local(t["args"][0])
+            if cl is None:
+                out.add(eb)
+                continue
+            cps = util.copies_of(fn, cl, allow_not=False)
+            sel = {b for b, j, pl, rv, meta in fn.assigns() if pl["l"] in cps and not pl["p"] and rv["k"] == "use" and rv["ops"][0].get("int") not in (None, "0")}
+            if sel:
+                out |= sel
+            else:
+                out.add(eb)
+    return out
+
+
 def _verdict_blocks(fn):
     """blocks that make the caller's own verdict negative: `L = false` for a bool local that is
     the function result, feeds the `Ok(..)` result, or guards a process::exit(nonzero);
@@ -37,12 +56,55 @@ def _verdict_blocks(fn):
                     guards = True
         if feeds or guards:
             cand.append(l)
+    # `process::exit(if ok { 0 } else { 1 })`: the non-zero code is chosen on the false edge of a bool
+    sel_nonzero = set()
+    for eb, t in fn.calls():
+        if callee(t) == "std::process::exit" and "int" not in t["args"][0]:
+            cl = op_local(t["args"][0])
+            if cl is None:
+                continue
+            cps = util.copies_of(fn, cl, allow_not=False)
+            for b, j, pl, rv, meta in fn.assigns():
+                if pl["l"] in cps and not pl["p"] and rv["k"] == "use" and rv["ops"][0].get("int") not in (None, "0"):
+                    sel_nonzero.add(b)
+    for l, d in enumerate(fn.locals):
+        if d["ty"] != "bool" or l == 0 or l in cand:
+            continue
+        for sb, ft, tt in util.bool_switches(fn, l):
+            if any(cfg.dominates(fn, ft, nb) for nb in sel_nonzero) and not any(cfg.dominates(fn, tt, nb) for nb in sel_nonzero):
+                cand.append(l)
+                break
     for l in cand:
         blocks.update(util.blocks_assigning_const(fn, l, 0))
     for eb, code in util.exit_calls(fn):
-        if code != "0":
+        if code not in ("0", None):
             blocks.add(eb)
+    blocks |= sel_nonzero
     return blocks, cand
+
+
+SHORT_CIRCUIT = ("all", "any", "find", "find_map", "position", "take_while", "map_while", "try_fold", "try_for_each", "skip_while")
+EXHAUSTIVE = ("fold", "for_each", "collect", "count", "last", "sum", "product", "max", "min", "reduce", "unzip", "partition")
+
+
+def _consumption(F, r, cf, key):
+    """a closure that yields a verdict per path is consumed by an iterator chain of its parent: every path has to be visited,
+    so the chain may not end in a short-circuiting adaptor"""
+    parent = cf.name[:cf.name.rindex("::{closure")]
+    if parent not in F.fns:
+        return
+    pf = F.fn(parent)
+    cname = cf.name.split("::")[-1]
+    its = [(b, callee(t).split("::")[-1]) for b, t in pf.calls() if "::Iterator::" in callee(t) or callee(t).startswith("core::iter::")]
+    short = [(b, n) for b, n in its if n in SHORT_CIRCUIT]
+    full = [(b, n) for b, n in its if n in EXHAUSTIVE]
+    if not its:
+        return
+    ok = not short and bool(full)
+    r.inst(key + ":every-path-visited", pf.where((short or full or its)[0][0]), ok,
+           "the verdicts are consumed by %s: every path is visited" % "/".join(sorted({n for b, n in full})) if ok else
+           "the per-path verdicts are consumed by `%s`, which stops at the first %s: the paths after it are never visited (no log, no "
+           "verdict for them)" % (short[0][1] if short else "?", "false" if short and short[0][1] == "all" else "hit"))
 
 
 def r57(F):
@@ -93,6 +155,19 @@ def r57(F):
                             if zero:
                                 sw.append((bb, zero[0], tt["otherwise"]))
                 if not sw:
+                    # `visit(..).unwrap_or(false)` returned from a closure: Ok(v) -> v, Err -> false; the closure's result is the verdict
+                    uo = [(b2, t2) for b2, t2 in fn.calls() if callee(t2).split("::")[-1] in ("unwrap_or", "unwrap_or_default") and "Result" in callee(t2)
+                          and t2["args"] and op_local(t2["args"][0]) in util.copies_of(fn, dl, allow_not=False)]
+                    ret_bool = fn.local_ty(0) == "bool"
+                    if uo and ret_bool and all(t2["dest"]["l"] in util.copies_of(fn, 0, allow_not=False) or 0 in util.copies_of(fn, t2["dest"]["l"], allow_not=False)
+                                               for b2, t2 in uo):
+                        dflt = uo[0][1]["args"][1].get("int") if len(uo[0][1]["args"]) > 1 else "0"
+                        r.inst(key, fn.where(b), True, "Ok(v) -> v is the closure's verdict")
+                        r.inst(key + ":Err", fn.where(b), dflt == "0",
+                               "an Err counts as false" if dflt == "0" else
+                               "verdict dropped: an Err from %s is turned into `true`" % c.split("::")[-1])
+                        _consumption(F, r, fn, key)
+                        continue
                     r.inst(key, fn.where(b), False,
                            "verdict dropped: Ok(false) from %s is never inspected (only the Err case, if any)" % c)
                     continue
@@ -115,6 +190,8 @@ def r57(F):
                     r.inst(key + ":Err", fn.where(b), False,
                            "verdict dropped: the Err case of %s is never looked at (`if let Ok(false) = ..`): a path that could not be "
                            "visited is skipped silently and the run can still exit 0" % c.split("::")[-1])
+                if "{closure" in fn.name:
+                    _consumption(F, r, fn, key)
     return r
 
 
@@ -336,7 +413,7 @@ def r60(F):
         need(oks, "no verdict local in %s" % name)
         for l in oks:
             for sb, ft, tt in util.bool_switches(fn, l):
-                nz = {b for b, c in util.exit_calls(fn) if c != "0"}
+                nz = _nonzero_exit_blocks(fn)
                 ok_f = util.must_pass(fn, ft, nz)
                 ok_t = not (cfg.reachable(fn, tt) & nz)
                 r.inst("%s:ok=false" % name, fn.where(sb), ok_f, "reaches exit(1)" if ok_f else "ok=false does not force a non-zero exit")
